@@ -37,11 +37,47 @@ def power_events(env):
     return ev
 
 
+def floor_events(env):
+    """a // b is the floor of a / b (the true quotient is what the model validates): negative and positive quotients that are far from a whole
+    number, operands in one unit, in two units of one type and derived, as Scalars and as list / numpy Arrays."""
+    import math
+    import numpy
+    from barril.units import Array, Scalar
+
+    ev = []
+    pairs = [(("m", "length"), ("m", "length")), (("m", "length"), ("cm", "length")), (("h", "time"), ("min", "time")), (("km", "depth"), ("m", "length")),
+             (("m", "length"), ("s", "time"))]
+    for (u1, c1), (u2, c2) in pairs:
+        for x, y in ((-3.5, 1.25), (3.5, -1.25), (-7.25, -2.0), (7.25, 2.0), (-0.3, 4.0), (1e-3, -7.0)):
+            for cls in ("Scalar", "list", "ndarray", "derived"):
+                def mk(v, u, c):
+                    if cls == "Scalar":
+                        return Scalar(v, u, c)
+                    if cls == "derived":
+                        return Scalar(v, u, c) * Scalar(1.0, "kg")
+                    return Array(c, [v, 2 * v] if cls == "list" else numpy.array([v, 2 * v]), u)
+                a, b = mk(x, u1, c1), mk(y, u2, c2)
+                d, f = P.outcome(lambda: a / b), P.outcome(lambda: a // b)
+                e = {"op": "Agrees", "call": "%s: (%r %s) // (%r %s) against the floor of the quotient" % (cls, x, u1, y, u2), "ok": d[0] == "ok" and f[0] == "ok",
+                     "same_quantity": False, "ppt": 2 ** 31 - 1, "want": ""}
+                if e["ok"]:
+                    dv = [float(z) for z in (d[1].GetAbstractValue() if cls in ("list", "ndarray") else [d[1].GetValue()])]
+                    fv = [float(z) for z in (f[1].GetAbstractValue() if cls in ("list", "ndarray") else [f[1].GetValue()])]
+                    e["same_quantity"] = bool(d[1].GetQuantity() == f[1].GetQuantity())
+                    e["want"], e["got"] = repr([math.floor(z) for z in dv]), repr(fv)
+                    far = [abs(z - round(z)) > 0.01 for z in dv]          # a quotient next to a whole number may floor either way in floats
+                    e["ppt"] = 0 if len(dv) == len(fv) and all((not far_) or fz == math.floor(z) for z, fz, far_ in zip(dv, fv, far)) else 2 ** 31 - 1
+                ev.append(e)
+    return ev
+
+
 def main(tier):
     rep, bd, env, stats = qalg.run("C04", tier, "prod", "")
     common.judge_trace(rep, bd, power_events(env), "powers 1..9 of simple, derived and two-unit operands against the n-fold product", tag="powers",
                        key_of=lambda ev: {"check": "power vs product", "call": ev["call"]})
+    common.judge_trace(rep, bd, floor_events(env), "floor divisions against the floor of the true quotient (negative quotients included)", tag="floors",
+                       key_of=lambda ev: {"check": "floor division", "call": ev["call"]})
     return qalg.finish(rep, env, rule="(a) every transition TLC generates for the bounded quantity-algebra machine whose last step is "
                        "a multiplication, division, floor division or power (operands built by up to two products/quotients/powers of "
                        "table units) is executed on real Scalars and compared with the prediction; distinct = distinct (pool, call) pairs; "
-                       "(b) a ** n for n = 1..9 against the n-fold product, validated by TLC")
+                       "(b) a ** n for n = 1..9 against the n-fold product, and a // b against the floor of a / b, validated by TLC")
